@@ -125,7 +125,7 @@ def run(ck, prog, tier, load):
         n_p += 1
         arg = parse.op_expr(t["args"][1])
         lit = arg[0] == "const" or (e_consts(arg) and not [r for r in e_roots(arg) if r[0] in ("arg", "var", "phi", "call")])
-        ok = lit or bool(e_calls(arg, r"regex_syntax::escape$|regex::escape$|regex_lite::escape$")) or _c10.is_regex_part(arg)
+        ok = lit or bool(e_calls(arg, r"regex_syntax::escape$|regex::escape$|regex_lite::(hir::)?escape$")) or _c10.is_regex_part(arg)
         ck.ob("C09-d.literal-escaped", "push#%d" % n_p, ok, parse, bb, "pattern text reaches the route regex only escaped (an unescaped '.' would match '/' and cross a segment boundary)")
     ck.anchor("C09-d", n_p, 4, "regex fragments pushed in ResourceDef::parse")
 
